@@ -422,6 +422,14 @@ func enumC13() []*C13Case {
 							continue // needs a logged-on session with stored messages
 						}
 						out = append(out, c)
+						// a local close racing with an inbound hand-off has two outcomes
+						// per run (which select arm wins): try those tuples several times
+						if f.partial != 0 && (cause == "acceptor-close" || cause == "initiator-close" || cause == "handler-stop") {
+							for k := 0; k < 5; k++ {
+								cp := *c
+								out = append(out, &cp)
+							}
+						}
 					}
 				}
 			}
